@@ -344,6 +344,7 @@ func orderIndependent(e *vc.Engine, an *effAnalysis, f *ssa.Function, r *ssa.Ran
 		}
 	}
 	var appendTargets []*ssa.Phi
+	appendCells := map[*ssa.Alloc]bool{}
 	worst := effPure
 	worstWhere := ""
 	exitOnly := true // every effect beyond "commutative" happens in a block from which the loop is left
@@ -356,6 +357,26 @@ func orderIndependent(e *vc.Engine, an *effAnalysis, f *ssa.Function, r *ssa.Ran
 						appendTargets = append(appendTargets, phi)
 						continue
 					}
+					// a slice variable that lives in a cell (captured by the sort closure): x = append(x, ...)
+					if ld, ok := c.Call.Args[0].(*ssa.UnOp); ok {
+						if al, ok := ld.X.(*ssa.Alloc); ok && !loop[al.Block()] {
+							stored := false
+							for _, ref := range *c.Referrers() {
+								if st, ok := ref.(*ssa.Store); ok && st.Addr == ssa.Value(al) {
+									stored = true
+								}
+							}
+							if stored {
+								appendCells[al] = true
+								continue
+							}
+						}
+					}
+				}
+			}
+			if st, ok := ins.(*ssa.Store); ok {
+				if al, ok := st.Addr.(*ssa.Alloc); ok && appendCells[al] {
+					continue
 				}
 			}
 			k := an.instrClass(ins, loop)
@@ -383,7 +404,12 @@ func orderIndependent(e *vc.Engine, an *effAnalysis, f *ssa.Function, r *ssa.Ran
 				return false, "the loop collects into a slice in map order and " + why
 			}
 		}
-		if len(appendTargets) > 0 {
+		for al := range appendCells {
+			if ok, why := cellSortedBeforeUse(al, loop); !ok {
+				return false, "the loop collects into a slice in map order and " + why
+			}
+		}
+		if len(appendTargets) > 0 || len(appendCells) > 0 {
 			return true, "collect-then-sort: the collected slice is sorted before it is used"
 		}
 		return true, "the body only deletes, inserts fixed values or entries keyed by the loop key, or writes iteration-local objects: iterations commute (keyed inserts assume the key function is injective on the keys present)"
@@ -561,4 +587,56 @@ func init() {
 	p.Structural = c01Structural
 	p.ExtraUnits = func(e *vc.Engine) ([]*vc.Unit, error) { return lemmaUnits(e, "ircserver", "ircserver.lemma_uniquepseudo") }
 	register(p)
+}
+
+// cellSortedBeforeUse: the slice variable lives in a cell; outside the loop its first read feeds
+// sort.Slice/sort.Strings and that call dominates every other read in this function.
+func cellSortedBeforeUse(al *ssa.Alloc, loop map[*ssa.BasicBlock]bool) (bool, string) {
+	var sortCall ssa.Instruction
+	var loads []ssa.Instruction
+	for _, ref := range *al.Referrers() {
+		ld, ok := ref.(*ssa.UnOp)
+		if !ok || loop[ld.Block()] {
+			continue
+		}
+		isSortArg := false
+		for _, r2 := range *ld.Referrers() {
+			var v ssa.Value
+			switch x := r2.(type) {
+			case *ssa.MakeInterface:
+				v = x
+			case *ssa.Call:
+				v = nil
+				if sc := x.Call.StaticCallee(); sc != nil && vc.ShortName(sc) == "sort.Strings" {
+					isSortArg = true
+					sortCall = x
+				}
+			}
+			if v != nil {
+				for _, r3 := range *v.Referrers() {
+					if c, ok := r3.(*ssa.Call); ok {
+						if sc := c.Call.StaticCallee(); sc != nil && (vc.ShortName(sc) == "sort.Slice" || vc.ShortName(sc) == "sort.Sort") {
+							isSortArg = true
+							sortCall = c
+						}
+					}
+				}
+			}
+		}
+		if !isSortArg {
+			loads = append(loads, ld)
+		}
+	}
+	if sortCall == nil {
+		if len(loads) == 0 {
+			return true, ""
+		}
+		return false, "uses it without sorting it first"
+	}
+	for _, o := range loads {
+		if !(sortCall.Block() == o.Block() && before(sortCall, o) || sortCall.Block() != o.Block() && sortCall.Block().Dominates(o.Block())) {
+			return false, "uses it on a path that does not pass the sort"
+		}
+	}
+	return true, ""
 }
